@@ -193,18 +193,32 @@ func openPlain(path string) *sql.DB {
 }
 
 func dumpGpkg(path string) map[string]*tableDump {
+	out, err := dumpGpkgE(path)
+	if err != nil {
+		fatal("%v", err)
+	}
+	return out
+}
+
+// dumpGpkgE: as dumpGpkg, but a file that cannot be read (e.g. left behind with a hot journal by an aborted run) is an error value
+func dumpGpkgE(path string) (res map[string]*tableDump, err error) {
+	defer func() {
+		if r := recover(); r != nil {
+			res, err = nil, fmt.Errorf("reading %s: %v", path, r)
+		}
+	}()
 	db := openPlain(path)
 	defer db.Close()
 	out := map[string]*tableDump{}
 	rows, err := db.Query(`SELECT table_name, column_name, geometry_type_name, srs_id FROM gpkg_geometry_columns ORDER BY rowid`)
 	if err != nil {
-		fatal("geometry columns of %s: %v", path, err)
+		return nil, fmt.Errorf("geometry columns of %s: %v", path, err)
 	}
 	var order []string
 	for rows.Next() {
 		td := &tableDump{}
 		if err := rows.Scan(&td.Name, &td.GeomCol, &td.GeomType, &td.SrsID); err != nil {
-			fatal("scan: %v", err)
+			panic(err)
 		}
 		out[td.Name] = td
 		order = append(order, td.Name)
@@ -222,7 +236,7 @@ func dumpGpkg(path string) map[string]*tableDump {
 		}
 		ci, err := db.Query(fmt.Sprintf(`PRAGMA table_info('%s')`, name))
 		if err != nil {
-			fatal("table_info: %v", err)
+			panic(err)
 		}
 		var colNames []string
 		for ci.Next() {
@@ -243,7 +257,7 @@ func dumpGpkg(path string) map[string]*tableDump {
 		q := fmt.Sprintf(`SELECT %s, %s FROM "%s" ORDER BY rowid`, strings.Join(attrs, ","), td.GeomCol, name)
 		rs, err := db.Query(q)
 		if err != nil {
-			fatal("%s: %v", q, err)
+			panic(err)
 		}
 		for rs.Next() {
 			vals := make([]interface{}, len(attrs)+1)
@@ -252,7 +266,7 @@ func dumpGpkg(path string) map[string]*tableDump {
 				ptrs[i] = &vals[i]
 			}
 			if err := rs.Scan(ptrs...); err != nil {
-				fatal("scan row: %v", err)
+				panic(err)
 			}
 			for i, v := range vals {
 				if b, ok := v.([]byte); ok && i < len(attrs) {
@@ -286,7 +300,7 @@ func dumpGpkg(path string) map[string]*tableDump {
 			td.Rtree = []int64{}
 		}
 	}
-	return out
+	return out, nil
 }
 
 func countRows(path, table string) int {
